@@ -449,6 +449,7 @@ impl Check for C02 {
                 chunk_mode: if j == 0 { draw(4) as u8 } else { 1 + draw(3) as u8 },
                 fin_mode: draw(3) as u8,
                 coalesce_reads: draw(4) == 1,
+                segmented_reads: draw(3) == 1,
                 reset_discards_rx: draw(2) == 0,
                 ..NetCfg::default()
             };
